@@ -551,9 +551,9 @@ pub fn fuzz_targets_of(property: &str) -> Vec<(&'static str, u64)> {
     // (125/s), `diff` (30/s) and `render` (18/s) exist in harness/fuzz for manual use but are not
     // part of a registered command -- the proptest engine covers those oracles 100x faster
     match property {
-        "C06" => vec![("markdown", 2_000_000)],
-        "C07" => vec![("cram", 150_000)],
-        "C11" => vec![("escape", 100_000)],
+        "C06" => vec![("markdown", 1_000_000)],
+        "C07" => vec![("cram", 30_000)],
+        "C11" => vec![("escape", 60_000)],
         _ => vec![],
     }
 }
@@ -598,7 +598,7 @@ pub fn run_fuzz(property: &str, target: &str, runs: u64, seed: u64) -> FuzzOutco
         .arg("--")
         .arg(format!("-runs={runs}"))
         .arg(format!("-seed={}", if seed == 0 { 1 } else { seed % 4_000_000_000 }))
-        .args(["-max_len=2048", "-len_control=0", "-print_final_stats=1", "-verbosity=0"])
+        .args(["-max_len=1024", "-len_control=0", "-print_final_stats=1", "-verbosity=0"])
         .arg(format!("-artifact_prefix={prefix}"))
         .env("CARGO_NET_OFFLINE", "true")
         .env("CARGO_TARGET_DIR", "/verif/target/fuzz")
@@ -668,7 +668,10 @@ fn list_json(dir: &Path) -> Vec<PathBuf> {
         .map(|rd| {
             rd.filter_map(|e| e.ok())
                 .map(|e| e.path())
-                .filter(|p| p.extension().map(|e| e == "json").unwrap_or(false))
+                .filter(|p| {
+                    p.extension().map(|e| e == "json").unwrap_or(false)
+                        || p.file_name().and_then(|n| n.to_str()).map(|n| n.starts_with("fuzz-")).unwrap_or(false)
+                })
                 .collect()
         })
         .unwrap_or_default();
